@@ -175,7 +175,8 @@ theorem eqn2tail_sstep (opts : Opts) (o : Op) (l r : Expr) (size : Nat) (sf : Bo
       have hv := ideal_op_agn ρ o l r size sf prop hag
       have hsame : o.type ≠ 8 → ideal ρ l = ideal ρ r := fun h8 => eqok l r hl hr hql hqr (heq h8) (Or.inl hrender)
       have hb0 : SPost ρ 0 (Except.ok bit0) := SPost_ok Plain_bit0 (ideal_bit0 ρ)
-      have hb1 : SPost ρ 1 (Except.ok bit1) := SPost_ok Plain_bit1 (ideal_bit1 ρ)
+      have hb1 : SPost ρ 1 (Except.ok (if sf = true then cst 1 1 true else bit1)) :=
+        SPost_ok (by split <;> simp [Plain, bit1]) (by split <;> simp [ideal, bit1])
       have hz : SPost ρ 0 (Except.ok (cst 0 size false)) := SPost_ok (by simp [Plain]) (by simp [ideal])
       have hll : SPost ρ (ideal ρ l) (Except.ok l) := SPost_ok hql rfl
       rw [hv]
